@@ -57,6 +57,27 @@ SCALAR_LOOKALIKES = [j for j in LOOKALIKES if j["v"] in ("atom", "none")
                      and j.get("tag") not in ("frozenset", "bytearray", "range")]
 
 
+def _is_falsy_json(j):
+    """the value is one Python treats as false although it is not None (0, 0.0, "", Decimal(0), (), ...)"""
+    if j["v"] == "seq":
+        return not j["xs"]
+    if j["v"] == "dict":
+        return not j["kvs"]
+    if j["v"] != "atom":
+        return False
+    from harness.props.c13_world import atom_from
+    try:
+        return not atom_from(j["tag"], j["repr"])
+    except Exception:  # noqa: BLE001
+        return False
+
+
+FALSY_LOOKALIKES = [j for j in LOOKALIKES if _is_falsy_json(j)] + [
+    {"v": "atom", "tag": "bytes", "repr": "b''"}, {"v": "seq", "kind": "list", "xs": []}, {"v": "dict", "kvs": []}]
+FALSY_SCALAR_LOOKALIKES = [j for j in FALSY_LOOKALIKES if j["v"] == "atom"]
+FALSY_MODEL_KINDS = {"dataclass": ["bool", "len"], "attrs": ["bool", "len"], "namedtuple": ["bool"]}
+
+
 class Gen:
     def __init__(self, rng):
         self.rng = rng
@@ -64,6 +85,14 @@ class Gen:
         self.counter = 100
         self.fcounter = 0
         self.pyd = False
+        # per-case profile of the structured input space (drawn from the rng like everything else):
+        #   deep  - wrappers nest (Optional[List[T]], List[Optional[M]], Dict[str, Optional[List[T]]] ...) and leaf
+        #           types below a wrapper are retyped too, so that every structural coercer (Optional / iterable /
+        #           dict) is generated around every kind of inner coercer (as-is, user coercer, model, iterable, dict)
+        #   falsy - values are biased towards the ones Python treats as false without being None: 0, 0.0, "", False,
+        #           Decimal(0), empty containers, field-less models, models defining __bool__ / __len__
+        self.deep = rng.random() < 0.45
+        self.falsy = rng.random() < 0.45
 
     # -- small helpers -------------------------------------------------------
     def fresh_int(self):
@@ -90,16 +119,23 @@ class Gen:
     def value(self, ty, by_id):
         rng = self.rng
         t = ty["t"]
+        pf = 0.45 if self.falsy else 0.06       # chance of the falsy (not None) inhabitant of the type
         if t == "leaf":
             n = ty["n"]
             if n == LEAF_INT:
+                if self.chance(pf):
+                    return atom_json(0)
                 return atom_json(self.fresh_int() if self.chance(0.8) else rng.choice([0, 1, -1]))
             if n == LEAF_STR:
-                return atom_json(f"s{self.fresh_int()}")
+                return atom_json("" if self.chance(pf) else f"s{self.fresh_int()}")
             if n == LEAF_BOOL:
-                return atom_json(self.chance(0.5))
+                return atom_json(False if self.chance(pf) else self.chance(0.5))
             if n == LEAF_FLOAT:
+                if self.chance(pf):
+                    return atom_json(rng.choice([0.0, -0.0]))
                 return atom_json(self.fresh_int() + 0.5 if self.chance(0.8) else rng.choice([0.0, 1.0, float("inf")]))
+            if self.chance(pf):
+                return copy.deepcopy(rng.choice(FALSY_SCALAR_LOOKALIKES if self.pyd else FALSY_LOOKALIKES))
             if self.chance(0.5):
                 return self.lookalike()
             return atom_json(rng.choice([self.fresh_int(), f"s{self.fresh_int()}"]))
@@ -111,9 +147,10 @@ class Gen:
         if t == "iter":
             kind = {"list": "list", "tuple": "tuple", "deque": "deque", "sequence": "tuple", "mutable_sequence": "list",
                     "iterable": "list", "collection": "tuple", "reversible": "list"}[ty["o"]]
-            return {"v": "seq", "kind": kind, "xs": [self.value(ty["a"], by_id) for _ in range(rng.randint(0, 3))]}
+            n = 0 if self.chance(pf) else rng.randint(0, 3)
+            return {"v": "seq", "kind": kind, "xs": [self.value(ty["a"], by_id) for _ in range(n)]}
         if t == "dict":
-            keys = [atom_json(f"k{i}") for i in range(rng.randint(0, 3))]
+            keys = [atom_json(f"k{i}") for i in range(0 if self.chance(pf) else rng.randint(0, 3))]
             return {"v": "dict", "kvs": [[k, self.value(ty["v"], by_id)] for k in keys]}
         raise ValueError(t)
 
@@ -166,26 +203,38 @@ class Gen:
         r = self.rng.random()
         if depth > 0 and r < 0.22:
             return model_ty(self.src_model(depth - 1, kind_pool)["id"])
-        if r < 0.40:
-            inner = model_ty(self.src_model(depth - 1, kind_pool)["id"]) if depth > 0 and self.chance(0.5) \
-                else self.leaf_type()
-            w = self.rng.random()
-            if w < 0.4:
-                # typing collapses Optional[Any]; normalisation of unions is C15's business
-                return {"t": "opt", "a": leaf(LEAF_INT) if inner == leaf(LEAF_ANY) else inner}
-            if w < 0.8:
-                return {"t": "iter", "o": self.iter_origin(kind), "a": inner}
-            return {"t": "dict", "k": leaf(LEAF_STR), "v": inner}
+        if r < (0.55 if self.deep else 0.40):
+            return self.wrapped_type(depth, kind_pool, kind, 0)
         return self.leaf_type()
+
+    def wrapped_type(self, depth, kind_pool, kind, level):
+        """Optional / iterable / dict around a leaf, a model or (deep profile) another wrapper"""
+        if self.deep and level < 2 and self.chance(0.45):
+            inner = self.wrapped_type(depth, kind_pool, kind, level + 1)
+        elif depth > 0 and self.chance(0.5):
+            inner = model_ty(self.src_model(depth - 1, kind_pool)["id"])
+        else:
+            inner = self.leaf_type()
+        w = self.rng.random()
+        if w < 0.4:
+            if inner["t"] == "opt":
+                return inner      # typing collapses Optional[Optional[T]]
+            # typing collapses Optional[Any]; normalisation of unions is C15's business
+            return {"t": "opt", "a": leaf(LEAF_INT) if inner == leaf(LEAF_ANY) else inner}
+        if w < 0.8:
+            return {"t": "iter", "o": self.iter_origin(kind), "a": inner}
+        return {"t": "dict", "k": leaf(LEAF_STR), "v": inner}
 
     def src_model(self, depth, kind_pool):
         rng = self.rng
         kind = rng.choice(kind_pool)
         n = rng.randint(1, 5)
+        if self.chance(0.15 if self.falsy else 0.04):
+            n = 0             # a model without fields: an empty NamedTuple / TypedDict instance is falsy
         names = rng.sample(FIELD_NAMES, n)
         fields = []
         generic = None
-        if kind in GENERIC_KINDS and self.chance(0.12):
+        if n and kind in GENERIC_KINDS and self.chance(0.12):
             generic = rng.choice([LEAF_INT, LEAF_STR])
         for i, name in enumerate(names):
             if generic is not None and i == 0:
@@ -195,7 +244,15 @@ class Gen:
             if kind == "attrs" and self.chance(0.1):
                 fid = "_" + name
             fields.append({"id": fid, "ty": self.src_type(depth, kind_pool, kind)})
-        return self.new_class("src", kind, fields, generic)
+        c = self.new_class("src", kind, fields, generic)
+        self.maybe_falsy(c)
+        return c
+
+    def maybe_falsy(self, c):
+        """a model class whose instances are falsy: it defines __bool__ (-> False) or __len__ (-> 0)"""
+        how = FALSY_MODEL_KINDS.get(c["kind"])
+        if how and not self.pyd and self.chance(0.25 if self.falsy else 0.05):
+            c["falsy"] = self.rng.choice(how)
 
     def fix_default_order(self, c):
         """make the field list a legal class body of its kind"""
@@ -213,8 +270,9 @@ class Gen:
                 else:
                     f["kw_only"] = True
 
-    def retype(self, ty, src_by_id, dst_kind_pool, plan, path, kind=None):
-        """destination type for a source type; nested models get their own edited destination class"""
+    def retype(self, ty, src_by_id, dst_kind_pool, plan, path, kind=None, marks=None, below=False):
+        """destination type for a source type; nested models get their own edited destination class.
+        `below`: the type sits under a wrapper; a leaf retyped there is recorded in `marks`"""
         t = ty["t"]
         if t == "model":
             if self.chance(0.08) and not self.pyd:
@@ -224,14 +282,30 @@ class Gen:
                                under_pyd=kind == "pydantic")
             return model_ty(d["id"])
         if t == "opt":
-            return {"t": "opt", "a": self.retype(ty["a"], src_by_id, dst_kind_pool, plan, path, kind)}
+            a = self.retype(ty["a"], src_by_id, dst_kind_pool, plan, path, kind, marks, True)
+            if a["t"] == "leaf" and a["n"] == LEAF_ANY and kind != "pydantic":
+                a = ty["a"]                   # typing collapses Optional[Any]
+            return {"t": "opt", "a": a}
         if t == "iter":
             o = self.iter_origin(kind) if self.chance(0.5) or kind == "pydantic" or self.pyd else ty["o"]
-            return {"t": "iter", "o": o, "a": self.retype(ty["a"], src_by_id, dst_kind_pool, plan, path, kind)}
+            return {"t": "iter", "o": o, "a": self.retype(ty["a"], src_by_id, dst_kind_pool, plan, path, kind, marks, True)}
         if t == "dict":
-            return {"t": "dict", "k": ty["k"], "v": self.retype(ty["v"], src_by_id, dst_kind_pool, plan, path, kind)}
+            return {"t": "dict", "k": ty["k"],
+                    "v": self.retype(ty["v"], src_by_id, dst_kind_pool, plan, path, kind, marks, True)}
         if kind == "pydantic":
             return leaf(LEAF_ANY)     # pydantic converts bool/int/float/str into each other: keep its leaves untyped
+        if below and marks is not None:
+            # element / value / Optional-wrapped leaves change their type as well: int -> str needs a user coercer
+            # (the wrapper's coercer is then built around a real inner coercer), bool -> int and T -> Any are as-is
+            r = self.rng.random()
+            p = 0.45 if self.deep else 0.15
+            if ty["n"] == LEAF_INT and r < p:
+                marks.append("int->str")
+                return leaf(LEAF_STR)
+            if ty["n"] == LEAF_BOOL and r < p:
+                return leaf(LEAF_INT)
+            if ty["n"] != LEAF_ANY and r > 0.93:
+                return leaf(LEAF_ANY)
         return ty
 
     def dst_model(self, src, src_by_id, dst_kind_pool, plan, path, top, under_pyd=False):
@@ -258,7 +332,8 @@ class Gen:
             if r < 0.14:
                 edits.append(("drop", f["id"]))
                 continue
-            ty = self.retype(f["ty"], src_by_id, dst_kind_pool, plan, path + [fid], lkind)
+            marks = []
+            ty = self.retype(f["ty"], src_by_id, dst_kind_pool, plan, path + [fid], lkind, marks)
             if lkind == "pydantic":
                 ty = self.untyped_leaves(ty)
             if r < 0.30:
@@ -278,6 +353,8 @@ class Gen:
                     ty = leaf(LEAF_STR)
                     edits.append(("retype", f["id"], fid))
             used.add(fid.lstrip("_"))
+            if marks and lkind != "pydantic":
+                edits.append(("retype_inner", f["id"], fid))
             nf = {"id": fid, "ty": ty}
             if kind in ("attrs", "pydantic") and self.chance(0.1) and not fid.startswith("_"):
                 nf["alias"] = fid + "_al"
@@ -292,7 +369,7 @@ class Gen:
             edits.append(("add", fid))
         if generic is not None and not any(f.get("tvar") for f in fields):
             generic = None
-        if not fields:
+        if not fields and not (self.chance(0.5) and (self.falsy or not src["fields"])):
             fields.append({"id": "a", "ty": leaf(LEAF_ANY)})
             edits.append(("add", "a"))
         rng.shuffle(fields) if self.chance(0.3) else None
@@ -307,6 +384,7 @@ class Gen:
             if kind in ("dataclass", "attrs") and self.chance(0.15):
                 f["kw_only"] = True
         d = self.new_class("dst", kind, fields, generic)
+        self.maybe_falsy(d)
         self.fix_default_order(d)
         plan.append({"src": src["id"], "dst": d["id"], "edits": edits, "top": top})
         return d
@@ -376,12 +454,25 @@ class Gen:
                     elif r < 0.8 and d["kind"] != "pydantic":
                         recipe.append({"k": "coercer", "src": {"p": "origin", "o": {"o": "leaf", "n": LEAF_INT}},
                                        "dst": {"p": "origin", "o": {"o": "leaf", "n": LEAF_STR}}, "f": self.fresh_f()})
+                elif e[0] == "retype_inner":
+                    # an int leaf below Optional / iterable / dict became str: a user coercer for the leaf pair
+                    # (the wrappers' coercers are generated around it), or a coercer for the whole field
+                    r = rng.random()
+                    if r < 0.8 and d["kind"] != "pydantic":
+                        if not any(p["k"] == "coercer" for p in recipe) or self.chance(0.3):
+                            recipe.append({"k": "coercer", "src": {"p": "origin", "o": {"o": "leaf", "n": LEAF_INT}},
+                                           "dst": {"p": "origin", "o": {"o": "leaf", "n": LEAF_STR}}, "f": self.fresh_f()})
+                    elif r < 0.9:
+                        recipe.append({"k": "link", "src": self.src_pred(s, e[1]), "dst": self.dst_pred(d, e[2]),
+                                       "coercer": self.fresh_f()})
                 elif e[0] == "add":
                     self.serve_added(recipe, s, d, e[1], pl["top"], add_param, by_id)
         # ---- same-named parameters (top level and nested) and unused ones
         for _ in range(rng.choice([0, 0, 1, 1, 2])):
             pl = rng.choice(plan)
             d = by_id[pl["dst"]]
+            if not d["fields"]:
+                continue
             f = rng.choice(d["fields"])
             if f["ty"]["t"] == "leaf" or self.chance(0.3):
                 add_param(f["id"], f["ty"] if self.chance(0.85) else leaf(LEAF_STR))
@@ -391,10 +482,11 @@ class Gen:
         for _ in range(rng.choice([0, 0, 1, 2, 3])):
             pl = rng.choice(plan)
             s, d = by_id[pl["src"]], by_id[pl["dst"]]
-            f = rng.choice(d["fields"])
+            # a model without fields still takes part: the provider then names a field that does not exist
+            f = rng.choice(d["fields"] or [{"id": "zz", "ty": leaf(LEAF_ANY)}])
             r = rng.random()
             if r < 0.4:
-                sf = rng.choice(s["fields"])
+                sf = rng.choice(s["fields"] or [{"id": "zz", "ty": leaf(LEAF_ANY)}])
                 if f["ty"]["t"] == "opt" and sf["ty"]["t"] in ("iter", "dict") and sf["ty"] != f["ty"]["a"]:
                     continue      # UnionSubcaseCoercerProvider on same-origin generics is C14's business
                 recipe.append({"k": "link", "src": self.src_pred(s, sf["id"]), "dst": self.dst_pred(d, f["id"]),
@@ -419,7 +511,7 @@ class Gen:
         for _ in range(rng.choice([0, 0, 0, 1, 2])):
             pl = rng.choice(plan)
             d = by_id[pl["dst"]]
-            f = rng.choice(d["fields"])
+            f = rng.choice(d["fields"] or [{"id": "zz", "ty": leaf(LEAF_ANY)}])
             r = rng.random()
             pred = None if r < 0.3 else self.dst_pred(d, f["id"]) if r < 0.8 else \
                 {"p": "origin", "o": {"o": "cls", "c": d["id"]}}
@@ -452,14 +544,21 @@ class Gen:
             sig_params.insert(pos, {"name": "args", "kind": "var_pos", "ty": leaf(LEAF_ANY)})
         sig = {"params": sig_params, "ret": model_ty(top_dst["id"])}
         # wrap the top level sometimes: Optional[S] -> Optional[D], List[S] -> Tuple[D, ...]
-        if self.chance(0.08) and not params:
-            w = rng.choice(["opt", "iter"])
-            if w == "opt":
-                sig["params"][0]["ty"] = {"t": "opt", "a": sig["params"][0]["ty"]}
-                sig["ret"] = {"t": "opt", "a": sig["ret"]}
-            else:
-                sig["params"][0]["ty"] = {"t": "iter", "o": "list", "a": sig["params"][0]["ty"]}
-                sig["ret"] = {"t": "iter", "o": rng.choice(["tuple", "list", "sequence"]), "a": sig["ret"]}
+        if self.chance(0.14 if self.deep else 0.08) and not params:
+            # deep profile: up to three wrappers, e.g. Optional[List[S]] -> Optional[Tuple[D, ...]]
+            for _ in range(rng.choice([1, 2, 2, 3]) if self.deep else 1):
+                w = rng.choice(["opt", "iter", "dict"] if self.deep else ["opt", "iter"])
+                if w == "opt":
+                    if sig["ret"]["t"] == "opt":
+                        continue      # typing collapses Optional[Optional[T]]
+                    sig["params"][0]["ty"] = {"t": "opt", "a": sig["params"][0]["ty"]}
+                    sig["ret"] = {"t": "opt", "a": sig["ret"]}
+                elif w == "iter":
+                    sig["params"][0]["ty"] = {"t": "iter", "o": "list", "a": sig["params"][0]["ty"]}
+                    sig["ret"] = {"t": "iter", "o": rng.choice(["tuple", "list", "sequence"]), "a": sig["ret"]}
+                else:
+                    sig["params"][0]["ty"] = {"t": "dict", "k": leaf(LEAF_STR), "v": sig["params"][0]["ty"]}
+                    sig["ret"] = {"t": "dict", "k": leaf(LEAF_STR), "v": sig["ret"]}
         # ---- api
         plain = len(sig_params) == 1 and sig_params[0]["kind"] == "pos_only" and sig_params[0]["name"] == "src"
         apis = ["impl_converter", "impl_converter", "retort.impl_converter", "retort.extend"]
@@ -477,6 +576,7 @@ class Gen:
                 "fname": rng.choice(FUNC_NAMES), "split": rng.randint(0, len(recipe))}
         if case["api"] == "convert":
             case["fname"] = None
+        case["profile"] = {"deep": self.deep, "falsy": self.falsy}
         case["calls"] = [self.call(case, by_id) for _ in range(rng.choice([1, 2, 2, 3]))]
         return case
 
